@@ -1,16 +1,18 @@
 from props_common import COMMON_TRUSTED
 
 CONFIG = {
-    "areas": ["fuzz", "auth", "stateres"],
+    "areas": ["fuzz", "auth", "stateres", "sign"],
     # of the state-resolution area only the ops over possibly CYCLIC auth graphs (room versions 1-2; run in a child process so that a
     # fatal stack overflow / a hang is an outcome): every other stateres op belongs to C10 / C11
-    "op_filter": {"stateres": ["stateres.resolve_cyc", "stateres.resolve_old_cyc"]},
+    "op_filter": {"stateres": ["stateres.resolve_cyc", "stateres.resolve_old_cyc"], "sign": ["sign.deep_verify", "sign.deep_sign"]},
     "lean": ["VProps.C18", "VProps.C02", "VProps.C06", "VProps.C07", "VProps.C14", "VProps.C17"],
     "sources": ["VProps/C18.lean", "VModel/Json.lean", "VModel/Auth.lean", "VModel/Event.lean", "VProps/C02.lean", "VProps/C06.lean", "VProps/C07.lean", "VProps/C14.lean", "VProps/C17.lean",
                 # accessors of the three event structs and state resolution with explicit panic sites (inventory: lean/VModel/PanicSites.md)
                 "VModel/EventParse.lean", "VModel/EventAccessors.lean", "VModel/StateRes.lean", "VModel/StateResPanic.lean",
                 "VProofs/EventAccessors.lean", "VProofs/EventAccessorsRedact.lean", "VProofs/StateResPanic.lean", "VProofs/StateResNoPanic.lean",
-                "VDriver/Fuzz.lean"],
+                "VDriver/Fuzz.lean",
+                # second audit round: the sender lookup with any querier (P2), the reference lists of a remote proto event (P1)
+                "VModel/AuthQuerier.lean", "VModel/EventBuild.lean", "VProofs/AuthRulesNoPanic.lean"],
     "theorems": ["V.C18.version_table_total", "V.C18.version_table_keys", "V.C18.compact_no_panic", "V.C18.canonical_no_panic",
                  # every method of the PDU interface on events NewEventFromUntrustedJSON returned (Redact() included); Sign() on them
                  # WITHOUT any hypothesis on the signatures member (fix 679c22b); every method but Redact() / Sign() on events from
@@ -26,11 +28,30 @@ CONFIG = {
                  "V.C18.resolve_refines", "V.C18.resolve_refines_deprecated", "V.C18.no_panic_resolve",
                  "V.C18.no_panic_resolve_deprecated", "V.C18.no_panic_orderings", "V.C18.resolve_cycle_resolves",
                  # no-panic theorems of the other models (each states that the panic sites of that model are unreachable)
-                 "V.C02.sign_never_panics", "V.C06.no_panic", "V.C07.no_panic_allowed", "V.C14.collect_no_panic", "V.C17.splitID_no_panic"],
+                 "V.C02.sign_never_panics", "V.C06.no_panic", "V.C07.no_panic_allowed", "V.C14.collect_no_panic", "V.C17.splitID_no_panic",
+                 # second audit round.  P2: createEventAllowed / aliasEventAllowed with ANY spec.UserIDForSender - a user ID, an
+                 # error or (nil, nil) - reach no panic site; with the standard querier they are the checks of C07; a (nil, nil)
+                 # answer refuses the event; Allowed with the querier that answers (nil, nil) for a sender that is no user ID never
+                 # panics; the former crashes kernel-checked to be refusals
+                 "V.C18.no_panic_sender_lookup", "V.C18.sender_lookup_std", "V.C18.sender_lookup_nil_refused",
+                 "V.C18.no_panic_allowed_nil_querier", "V.C18.nil_querier_witnesses",
+                 # P1: EventBuilder.Build's reference conversion (event format 1) on ANY JSON value a remote proto event may carry
+                 # in prev_events / auth_events, and on any list of IDs: references or an ordinary error, never a panic; the former
+                 # crashes ([[]], [[5,{}]], [""], [[""]]) kernel-checked to be errors
+                 "V.C18.no_panic_event_references", "V.C18.no_panic_event_references_ids", "V.C18.event_references_witnesses"],
     "rule": "every public entry point reachable with remote data (untrusted / trusted / headered event parsing + all accessors + signature "
             "check + Allowed + orderings + both state-resolution entry points + Redact on accepted events; CanonicalJSON / EnforcedCanonicalJSON "
             "/ SignJSON / VerifyJSON / ListKeyIDs; key responses + CheckKeys; Authorization headers + VerifyHTTPRequest; identifiers and base64; "
-            "federation response bodies + LineariseStateResponse / CheckStateResponse; login tokens) driven under recover() with structure-aware "
+            "federation response bodies + LineariseStateResponse / CheckStateResponse / CheckSendJoinResponse; login tokens; since the second audit round: "
+            "fuzz.makejoin = the proto event of a make_join / make_leave / make_knock response or v3 invite request BUILT (as received, with "
+            "the fields PerformJoin overwrites, after AddAuthEvents) for room versions 1, 2 and a random one, with structure-aware reference "
+            "lists (nested empty arrays, wrong element types, empty / sigil-less IDs, huge lists, [id, hashes] pairs with junk hashes); "
+            "fuzz.buildrefs = the reference conversion alone against its model (output compared); fuzz.fedtypes / headered / text / xsign / "
+            "invite / txn = every UnmarshalJSON + accessor of fclient/federationtypes.go, headered event JSON, PublicKeyLookupRequest / HexString "
+            "/ Base64Bytes / Timestamp / content structs, cross-signing bodies, invite v2 / v3 bodies, transactions / EDUs; fuzz.httpreq = "
+            "VerifyHTTPRequest with two Authorization headers, odd Content-Types, methods, URIs, bodies; Allowed / VerifyEventSignatures / both "
+            "resolvers / CheckStateResponse asked with the standard querier AND with one that answers (nil, nil) for a sender that is no user ID; "
+            "auth.allowed_nilq = the auth scenarios with that querier, two thirds from such a sender) driven under recover() with structure-aware "
             "mutations of generated room histories (field retyping, boundary integers, malformed IDs, 60% with a recomputed content hash so that "
             "the event is accepted unredacted) and raw byte mutations, for all 16 room versions; plus (area stateres, ops resolve_cyc / resolve_old_cyc) "
             "state resolution of room-version 1 / 2 histories whose auth_events were made CYCLIC (self-citing and mutually citing power-levels "
@@ -40,10 +61,12 @@ CONFIG = {
     "trusted": COMMON_TRUSTED + [
         "panics inside third-party parsers and libraries (gjson / sjson / encoding/json / net/http / macaroon / go-set / lane) are outside the models: covered only by this stream",
         "stack exhaustion on deeply nested JSON and memory exhaustion are outside the models; the three recursions of stateresolutionv2.go over auth events ARE modelled (a recursion deeper than the number of events supplied + 2 is a panic site, proved unreachable for every auth graph) and exercised on cyclic auth graphs in a child process (stateres.resolve_cyc / resolve_old_cyc: a fatal stack overflow or a hang is the outcome panic:fatal-stack-overflow / panic:timeout)",
-        "the site inventory lean/VModel/PanicSites.md was compiled by reading the fourteen files it lists; the fuzz.event op now runs the accessor and state-resolution models on every generated op (a site the code lacks, or a panic the model lacks, breaks the tie)",
+        "the site inventory lean/VModel/PanicSites.md was compiled by reading the files it lists (fourteen root-package files in round 1; event_builder.go, perform*.go, handle*.go, keyring.go, keys.go, backfill.go, authchain.go, fclient/, spec/, tokens/ and every call of a spec.UserIDForSender in the second audit round, with fuzz probes of every decoder); sites marked 'local' there are the embedding server's contract (nil queriers / verifiers / callbacks, its own keys and events); the fuzz.event op now runs the accessor and state-resolution models on every generated op (a site the code lacks, or a panic the model lacks, breaks the tie)",
         "state resolution is proved panic-free over the event view of VModel.Event (hypothesis EvOK per event = what no_panic_accessors establishes on the parsed form); the two views read duplicate case-variant members differently",
     ],
     "assumptions": [
+        "a spec.UserIDForSender returns (is itself panic-free) and answers the same question the same way twice (redactEventAllowed asks again after commonChecks checked the answer for nil); apart from that it may answer anything, (nil, nil) included. The model carries the querier as a parameter at the two lookups that had no nil guard (createEventAllowed, aliasEventAllowed); for the six lookups that always had the guard it keeps the standard querier's answer (an error where the code answers NotAllowed: the stream compares accepted / refused)",
+        "handshake entry points (PerformJoin's nil content map, HandleSendJoin / HandleInvite with a (nil, nil) querier answer) belong to C15's models and harness",
         "trusted-JSON constructors are fed arbitrary bytes for parsing and accessors only (Redact() / Sign() on trusted JSON and EventID() / RoomID() after NewEventFromTrustedJSONWithEventID with an ID of the caller's choosing are the caller's contract)",
         "the hash returns 32 bytes (SHA-256)",
         "state resolution v2 / v2.1: at least two state sets (caller); nothing is assumed about the auth graph (cyclic auth_events, possible in room versions 1-2 whose event IDs are sender-chosen, are covered since fix 0d78b57). The v2.1 conflicted-subgraph walk is not modelled as a loop (StateRes.conflictedSubgraph is a closure): it would re-walk a cyclic auth graph forever, but v2.1 is selected only by room versions 12 / org.matrix.hydra.11, whose event IDs are hashes of the events (a cycle needs a SHA-256 fixed point)",
